@@ -1,5 +1,6 @@
 import Solvor.Lp.Lemmas
 import Mathlib.Tactic.FieldSimp
+import Mathlib.Data.List.GetD
 import Mathlib.Algebra.BigOperators.Group.Finset.Piecewise
 import Mathlib.Algebra.BigOperators.Intervals
 /-!
@@ -915,5 +916,213 @@ theorem cert_unbounded (h : Inv P t) {e : ℕ} (hs : findEnter 0 t = some e)
     linarith
 
 end read
+
+/-! Part 5: the loop, the initial tableau, the theorem -/
+open Solvor.Gen (Status)
+
+theorem phase2_none (fuel it : ℕ) (t : Tab) (h : findEnter 0 t = none) :
+    phase2 0 (fuel + 1) it t = ⟨.OPTIMAL, it, t, none⟩ := by
+  rw [phase2, h]
+
+theorem phase2_unb (fuel it : ℕ) (t : Tab) {e : ℕ} (h : findEnter 0 t = some e)
+    (hl : findLeave 0 t e = none) : phase2 0 (fuel + 1) it t = ⟨.UNBOUNDED, it, t, some e⟩ := by
+  rw [phase2, h]; simp only []; rw [hl]
+
+theorem phase2_step (fuel it : ℕ) (t : Tab) {e l : ℕ} (h : findEnter 0 t = some e)
+    (hl : findLeave 0 t e = some l) : phase2 0 (fuel + 1) it t = phase2 0 fuel (it + 1) (stepTab t l e) := by
+  rw [phase2, h]; simp only []; rw [hl]; rfl
+
+theorem phase2_spec {P : LP} : ∀ (fuel it : ℕ) (t : Tab), Inv P t →
+    Inv P (phase2 0 fuel it t).tab ∧
+    ((phase2 0 fuel it t).status = .OPTIMAL → findEnter 0 (phase2 0 fuel it t).tab = none) ∧
+    ((phase2 0 fuel it t).status = .UNBOUNDED → ∃ e, (phase2 0 fuel it t).enter = some e ∧
+      findEnter 0 (phase2 0 fuel it t).tab = some e ∧ findLeave 0 (phase2 0 fuel it t).tab e = none) ∧
+    ((phase2 0 fuel it t).status = .OPTIMAL ∨ (phase2 0 fuel it t).status = .UNBOUNDED ∨
+      (phase2 0 fuel it t).status = .MAX_ITER)
+  | 0, it, t, h => by
+    have e0 : phase2 0 0 it t = ⟨.MAX_ITER, it, t, none⟩ := by rw [phase2]
+    rw [e0]
+    exact ⟨h, (fun e => by cases e), (fun e => by cases e), Or.inr (Or.inr rfl)⟩
+  | fuel + 1, it, t, h => by
+    cases he : findEnter 0 t with
+    | none =>
+      rw [phase2_none fuel it t he]
+      exact ⟨h, fun _ => he, (fun e => by cases e), Or.inl rfl⟩
+    | some e =>
+      cases hl : findLeave 0 t e with
+      | none =>
+        rw [phase2_unb fuel it t he hl]
+        exact ⟨h, (fun e => by cases e), fun _ => ⟨e, rfl, he, hl⟩, Or.inr (Or.inl rfl)⟩
+      | some l =>
+        rw [phase2_step fuel it t he hl]
+        obtain ⟨he1, _, _⟩ := findEnter_some h.wf he
+        obtain ⟨hl1, hpv, hmin⟩ := findLeave_some h.wf (Nat.succ_pos _) hl
+        have hN : P.n + P.m + 1 - 1 = P.n + P.m := by omega
+        rw [hN] at he1 hmin
+        exact phase2_spec fuel (it + 1) _ (inv_step h hl1 he1 hpv hmin)
+
+/-- entries of the initial tableau -/
+theorem initTab_e (P : LP) (hA : ∀ i < P.m, (P.A.getD i []).length = P.n) {i : ℕ} (hi : i < P.m)
+    {c : ℕ} (hc : c < P.n + P.m + 1) : (initTab P.c P.A P.b).e i c = origRow P i c := by
+  have hi' : i < P.b.length := hi
+  have hrow : (initTab P.c P.A P.b).rows.getD i [] =
+      P.A.getD i [] ++ unitV P.b.length i ++ [P.b.getD i 0] := by
+    simp only [initTab]
+    rw [List.getD_eq_getElem?_getD, List.getElem?_map, List.getElem?_range hi']
+    rfl
+  unfold Tab.e
+  rw [hrow]
+  have hlenA := hA i hi
+  have hlenU : (unitV P.b.length i).length = P.m := by simp [unitV, LP.m]
+  unfold origRow
+  by_cases h1 : c < P.n
+  · rw [if_pos h1, List.append_assoc, List.getD_append _ _ _ _ (by rw [hlenA]; exact h1)]
+    rfl
+  · rw [if_neg h1]
+    by_cases h2 : c < P.n + P.m
+    · rw [if_pos h2, List.append_assoc, List.getD_append_right _ _ _ _ (by rw [hlenA]; omega), hlenA,
+        List.getD_append _ _ _ _ (by rw [hlenU]; omega)]
+      have hk : c - P.n < P.b.length := by show c - P.n < P.m; omega
+      unfold unitV
+      rw [List.getD_eq_getElem?_getD, List.getElem?_map, List.getElem?_range hk]
+      rfl
+    · rw [if_neg h2]
+      have hcN : c = P.n + P.m := by omega
+      have hlen : (P.A.getD i [] ++ unitV P.b.length i).length = P.n + P.m := by
+        rw [List.length_append, hlenA, hlenU]
+      rw [List.getD_append_right _ _ _ _ (by rw [hlen]; omega), hlen, hcN, Nat.sub_self]
+      rfl
+
+theorem initTab_oe (P : LP) (c : ℕ) : (initTab P.c P.A P.b).oe c = wbar P c := by
+  unfold Tab.oe initTab wbar
+  simp only []
+  by_cases h1 : c < P.n
+  · rw [if_pos h1, List.getD_append _ _ _ _ h1]; rfl
+  · rw [if_neg h1, List.getD_append_right _ _ _ _ (by show P.c.length ≤ c; exact not_lt.mp h1)]
+    simp [zeros, List.getD_eq_getElem?_getD, List.getElem?_replicate]
+    split <;> rfl
+
+theorem initTab_bs (P : LP) {i : ℕ} (hi : i < P.m) : (initTab P.c P.A P.b).bs i = P.n + i := by
+  have hi' : i < P.b.length := hi
+  unfold Tab.bs initTab
+  simp only []
+  rw [List.getD_eq_getElem?_getD, List.getElem?_map, List.getElem?_range hi']
+  simp [LP.n, Nat.add_comm]
+
+theorem initTab_wf (P : LP) (hA : ∀ i < P.m, (P.A.getD i []).length = P.n) :
+    (initTab P.c P.A P.b).WF P.m (P.n + P.m + 1) := by
+  refine ⟨by simp [initTab, LP.m], ?_, by simp [initTab, zeros, LP.n, LP.m]; omega, by simp [initTab, LP.m]⟩
+  intro r hr
+  simp only [initTab, List.mem_map, List.mem_range] at hr
+  obtain ⟨i, hi, rfl⟩ := hr
+  rw [List.length_append, List.length_append, hA i hi]
+  simp [unitV, LP.m]
+
+/-- the initial tableau of an LP with `b ≥ 0` satisfies the invariant -/
+theorem init_inv (P : LP) (hA : ∀ i < P.m, (P.A.getD i []).length = P.n) (hb : ∀ i < P.m, 0 ≤ vget P.b i) :
+    Inv P (initTab P.c P.A P.b) := by
+  have E : ∀ i < P.m, ∀ c < P.n + P.m + 1, (initTab P.c P.A P.b).e i c = origRow P i c :=
+    fun i hi c hc => initTab_e P hA hi hc
+  have slack : ∀ i < P.m, ∀ k < P.m, (initTab P.c P.A P.b).e i (P.n + k) = if k = i then 1 else 0 := by
+    intro i hi k hk
+    rw [E i hi (P.n + k) (by omega)]
+    have h1 : ¬ (P.n + k < P.n) := by omega
+    have h2 : P.n + k < P.n + P.m := by omega
+    simp [origRow, h1, h2]
+  refine ⟨initTab_wf P hA, ?_, ?_, ?_, ?_, ?_, ?_, ?_⟩
+  · intro i hi
+    constructor
+    · intro j hj
+      rw [E i hi j (by omega)]
+      have : ∑ k ∈ range P.m, (initTab P.c P.A P.b).e i (P.n + k) * P.a k j
+          = ∑ k ∈ range P.m, (if k = i then 1 else 0) * P.a k j :=
+        Finset.sum_congr rfl fun k hk => by rw [slack i hi k (Finset.mem_range.mp hk)]
+      rw [this, Finset.sum_eq_single i]
+      · simp [origRow, hj]
+      · intro k _ hki; rw [if_neg hki]; ring
+      · intro hn; exact absurd (Finset.mem_range.mpr hi) hn
+    · rw [E i hi (P.n + P.m) (by omega)]
+      have : ∑ k ∈ range P.m, (initTab P.c P.A P.b).e i (P.n + k) * vget P.b k
+          = ∑ k ∈ range P.m, (if k = i then 1 else 0) * vget P.b k :=
+        Finset.sum_congr rfl fun k hk => by rw [slack i hi k (Finset.mem_range.mp hk)]
+      rw [this, Finset.sum_eq_single i]
+      · have h1 : ¬ (P.n + P.m < P.n) := by omega
+        simp [origRow, h1]
+      · intro k _ hki; rw [if_neg hki]; ring
+      · intro hn; exact absurd (Finset.mem_range.mpr hi) hn
+  · constructor
+    · intro j _
+      simp only [initTab_oe, sub_self, zero_mul, Finset.sum_const_zero]
+    · simp only [initTab_oe, sub_self, zero_mul, Finset.sum_const_zero]
+  · intro i hi; rw [initTab_bs P hi]; omega
+  · intro i hi k hk
+    rw [initTab_bs P hk, slack i hi k hk]
+    by_cases hik : i = k
+    · rw [if_pos hik, if_pos hik.symm]
+    · rw [if_neg hik, if_neg (fun e => hik e.symm)]
+  · intro k hk; rw [initTab_bs P hk, initTab_oe, wbar_ge]
+  · intro z
+    have : ∀ i < P.m, ∑ c ∈ range (P.n + P.m + 1), (initTab P.c P.A P.b).e i c * z c =
+        ∑ c ∈ range (P.n + P.m + 1), origRow P i c * z c :=
+      fun i hi => Finset.sum_congr rfl fun c hc => by rw [E i hi c (Finset.mem_range.mp hc)]
+    constructor
+    · intro h k hk; rw [← this k hk]; exact h k hk
+    · intro h i hi; rw [this i hi]; exact h i hi
+  · intro i hi
+    rw [E i hi (P.n + P.m) (by omega)]
+    have h1 : ¬ (P.n + P.m < P.n) := by omega
+    simp only [origRow, h1, if_false, lt_self_iff_false]
+    exact hb i hi
+
+theorem mkLP_n (c : Vec) (A : Mat) (b : Vec) (mn : Bool) : (mkLP c A b mn).n = c.length := by
+  unfold mkLP LP.n; cases mn <;> simp
+
+/-- the ∀-input statement for LPs that need no phase 1 (`b ≥ 0`), exact arithmetic (`eps = 0`):
+whenever the mirror stops with a verdict, the certificate it emits passes the verified checker -/
+theorem solveLp_certifies_nonneg (c : Vec) (A : Mat) (b : Vec) (mn : Bool) (fuel : ℕ)
+    (hA : ∀ i < b.length, (A.getD i []).length = c.length) (hb : ∀ i < b.length, 0 ≤ b.getD i 0)
+    (hst : (solveLp c A b mn 0 fuel).status ≠ .MAX_ITER) :
+    certifies (mkLP c A b mn) (solveLp c A b mn 0 fuel) = true := by
+  set P := mkLP c A b mn with hP
+  have hn : P.n = c.length := mkLP_n c A b mn
+  have hm : P.m = b.length := rfl
+  have hA' : ∀ i < P.m, (P.A.getD i []).length = P.n := fun i hi => by rw [hn]; exact hA i hi
+  have hb' : ∀ i < P.m, 0 ≤ vget P.b i := fun i hi => hb i hi
+  have hinit : initTab (if mn = true then c else c.map fun v => -v) A b = initTab P.c P.A P.b := rfl
+  have h0 := init_inv P hA' hb'
+  -- no negative right-hand side: phase 1 is skipped
+  have hany : ((List.range b.length).any fun i =>
+      decide (lastR ((initTab (if mn = true then c else c.map fun v => -v) A b).rows.getD i []) < -0)) = false := by
+    rw [Bool.eq_false_iff]
+    intro hany
+    rw [List.any_eq_true] at hany
+    obtain ⟨i, hi, hlt⟩ := hany
+    rw [List.mem_range] at hi
+    rw [hinit, lastR_eq h0.wf (Nat.succ_pos _) hi, decide_eq_true_eq] at hlt
+    have hN : P.n + P.m + 1 - 1 = P.n + P.m := by omega
+    rw [hN, neg_zero] at hlt
+    exact absurd (h0.rhs i hi) (not_le.mpr hlt)
+  have hsolve : solveLp c A b mn 0 fuel = finishLp c.length b.length mn 0 false
+      (phase2Near 0 fuel (initTab P.c P.A P.b)) (phase2 0 fuel 0 (initTab P.c P.A P.b)) := by
+    unfold solveLp
+    simp only []
+    rw [hany]
+    rfl
+  rw [hsolve] at hst ⊢
+  obtain ⟨hinv, hopt, hunb, hcases⟩ := phase2_spec (P := P) fuel 0 _ h0
+  generalize phase2 0 fuel 0 (initTab P.c P.A P.b) = r at *
+  unfold certifies finishLp
+  simp only []
+  rcases hcases with hs | hs | hs
+  · rw [hs]
+    simp only [slackPart]
+    rw [← hn, ← hm]
+    exact cert_optimal hinv (hopt hs)
+  · obtain ⟨e, he1, he2, he3⟩ := hunb hs
+    rw [hs, he1]
+    simp only []
+    rw [← hn]
+    exact cert_unbounded hinv he2 he3
+  · exact absurd hs hst
 
 end Solvor.Lp
